@@ -150,3 +150,79 @@ def listcomp_bytes(b):
 
 def join_bytes(a, b):
     return b"".join([a, b"-", b]) + b":".join([b, a])
+
+
+def while_else(n):
+    k = 0
+    while k < 3:
+        if k == n:
+            break
+        k += 1
+    else:
+        return -1
+    return k
+
+
+def for_else(b):
+    for c in b"abc":
+        if c in b:
+            break
+    else:
+        return 0
+    return c
+
+
+def try_else_finally(b, i):
+    out = 0
+    try:
+        x = b[i]
+    except IndexError:
+        out = -1
+    else:
+        out = x + 1
+    finally:
+        out = out * 2
+    return out
+
+
+def nested_try(b):
+    try:
+        try:
+            return b[0] + b[5]
+        except IndexError:
+            raise ValueError("short")
+    except ValueError:
+        return -7
+
+
+def aug_and_unpack(a, b):
+    x, y = a + 1, b - 1
+    x += y
+    y *= 2
+    return x - y, (x, y)[0]
+
+
+def str_ops(s):
+    return s[1:] + s[:1], len(s), s == "ab", ("a" in s)
+
+
+def conditional_chain(a):
+    if a < 0:
+        r = "neg"
+    elif a == 0:
+        r = "zero"
+    elif a < 10:
+        r = "small"
+    else:
+        r = "big"
+    return r + ("!" if a % 2 else "")
+
+
+def bytes_cmp(a, b):
+    return a == b, a != b, a + b == b + a
+
+
+def int_conv(b):
+    if len(b) != 2:
+        return -1
+    return b[0] * 256 + b[1], (b[0] << 8) | b[1]
